@@ -23,7 +23,7 @@ For each change i in 1..{n} deliver, inside {wt}/_seed/{pid}-<letter>/ (letters 
   - patch.diff : `git diff` of the library change only (relative to the worktree HEAD; must apply with `git apply` to a clean checkout);
   - demo.py    : a small standalone program that exits 0 on the unchanged tree and exits non-zero (printing what went wrong) with the change applied; it must run as `cd <tree> && PYTHONPATH=<tree> /venv/bin/python _seed/.../demo.py` style, i.e. import molli from the current tree, use temporary directories for files, set the environment variable MOLLI_HOME to a fresh temporary directory before importing molli, and finish within ~60 s;
   - meta.json  : {{"property": "{pid}", "title": "...", "what_it_breaks": "...which clause...", "needs_to_manifest": "...the specific sequence/input/schedule...", "files_changed": [...], "tests_still_pass": true}}.
-Verify each yourself: with the patch applied demo.py fails and the test-suite result is unchanged; after `git checkout -- .` (patch removed, keep _seed/ which is untracked) demo.py passes. Leave the worktree clean (no patch applied) at the end, with only the untracked _seed/ directory added.
+Verify each yourself: with the patch applied demo.py fails and the test-suite result is unchanged; after `git checkout -- .` (patch removed, keep _seed/ which is untracked) demo.py passes. Switch between the patched and the clean tree with `git apply <patch>` / `git apply -R <patch>` / `git checkout -- .` only; never use `git stash` (the stash is shared by all worktrees of the repository and other people work in theirs). Leave the worktree clean (no patch applied) at the end, with only the untracked _seed/ directory added.
 
 Reply with a short summary of each change (one paragraph each) and the verification output you observed."""
 if __name__=="__main__":
